@@ -202,13 +202,15 @@ Qed.
 Lemma land2_cases x : N.land x 2 = 0 \/ N.land x 2 = 2.
 Proof. destruct x as [|p]; [left; reflexivity|]. destruct p as [[q|q|]|[q|q|]|]; cbn; auto. Qed.
 
-Definition opensession_env (s : state) (k flags : N) : SessionManager_openSession.env :=
-  SessionManager_openSession.mk 0 0 1 true (is_so (tok_login s k)) CKR_OK 1 flags 0 0 1.
-Theorem opensession_model_is_code (s : state) (k flags : N) :
+(* `lr`: whether the loop that looks for a free slot in the session vector leaves the function (it returns CKR_OK, as does
+   the code after it: zz_rest) - the decision does not depend on it *)
+Definition opensession_env (s : state) (k flags : N) (lr : bool) : SessionManager_openSession.env :=
+  SessionManager_openSession.mk 0 0 lr 1 true (is_so (tok_login s k)) CKR_OK 1 flags 0 0 1.
+Theorem opensession_model_is_code (s : state) (k flags : N) (lr : bool) :
   st_init s = true -> amem k (st_tokens s) = true ->
   match snd (step s (OOpen (TTok k) flags)) with
-  | RRv rv => rv = SessionManager_openSession.app (opensession_env s k flags)
-  | RHandle _ => SessionManager_openSession.app (opensession_env s k flags) = CKR_OK
+  | RRv rv => rv = SessionManager_openSession.app (opensession_env s k flags lr)
+  | RHandle _ => SessionManager_openSession.app (opensession_env s k flags lr) = CKR_OK
   | _ => False
   end.
 Proof.
@@ -218,8 +220,8 @@ Proof.
   destruct (N.land flags 4 =? 0) eqn:E4; cbn [snd]; [reflexivity|].
   destruct (land2_cases flags) as [E|E]; rewrite E; cbn [N.eqb Pos.eqb negb andb].
   - destruct (is_so (tok_login s k)); cbn [snd]; [reflexivity|].
-    destruct (add_handle s _) as [s1 hh]. cbn [snd]. reflexivity.
-  - destruct (add_handle s _) as [s1 hh]. cbn [snd]. reflexivity.
+    destruct (add_handle s _) as [s1 hh]. cbn [snd]. destruct lr; reflexivity.
+  - destruct (add_handle s _) as [s1 hh]. cbn [snd]. destruct lr; reflexivity.
 Qed.
 
 (* ---- C_DestroyObject: the guards (handle, write access, CKA_DESTROYABLE) of the model are those of the regenerated code;
